@@ -12,8 +12,9 @@
 //!       -> ps=<..> bb=<bounding box> pts=<Arc::points() list>
 //!
 //! Angles are milli-degrees, converted with `Angle::from_degrees(m as f32 / 1000.0)` exactly like
-//! `shapes::mdeg`. Trigonometry (micromath f32, or the fixed-point sine table with feature
-//! `fixed_point`) is NOT modelled: `tag lx ly rx ry` is what the real
+//! `shapes::mdeg`. For these streams the trigonometry is an INPUT of the model (micromath f32 is never
+//! modelled; the fixed-point pipeline is modelled separately and tied by the `sector.consts / sector.trig /
+//! sector.fxpoints` streams of the fixed_point build, see below): `tag lx ly rx ry` is what the real
 //! `PlaneSector::new(start, sweep)` computed — operation tag (0 intersection, 1 union, 2 entire
 //! plane), normal vector of the left half plane, normal vector of the right half plane — obtained
 //! through `embedded_graphics::verif_hooks::plane_sector` by the *generator* and written into the op
@@ -57,7 +58,7 @@
 //!   smallest tolerance with which the run would still pass.
 //!   * accuracy observation, counter `obs:angular-tolerance-needed-above-0.5px` (NOT a failure class: the
 //!     property allows 1.5 px, and a check must not demand more than the text): counts ops whose needed
-//!     tolerance exceeds 0.5 px (the unchanged tree needs 0.07 px in the f32 build, 0.16 px in the
+//!     tolerance exceeds 0.5 px (the unchanged tree needs 0.07 px in the f32 build, 0.55 px in the
 //!     fixed_point build); together with `sector:tol-needed-milli-px` it makes a loss of trigonometric
 //!     accuracy visible in the evidence long before the property fails.
 //!
@@ -116,7 +117,7 @@ const FIXED: bool = cfg!(feature = "fixed_point");
 /// the tolerance of the property text: 1.5 px = 3.0 half-pixel units
 const TOL_2X: f64 = 3.0;
 /// Accuracy observation threshold (NOT a clause of C18, stricter than its text): 0.5 px = 1.0 half-pixel
-/// units. The current tree needs 0.07 px (f32) / 0.16 px (fixed_point).
+/// units. The current tree needs 0.07 px (f32) / 0.55 px (fixed_point, on half-degree angles at d = 128).
 const GUARD_2X: f64 = 1.0;
 /// Evidence counter of the guard (an observation, never a failure: C18 allows 1.5 px).
 const GUARD_CLASS: &str = "obs:angular-tolerance-needed-above-0.5px";
@@ -263,7 +264,7 @@ fn angular_oracle(
             .max((r[0] as f64 - nr.0).abs())
             .max((r[1] as f64 - nr.1).abs());
         note_max(ctx, &format!("{}:normal-eps-max-milli", kind), (eps * 1000.0).ceil() as u64);
-        ctx.expect(eps <= 16.0, &format!("C18:{}-normal-vector-inaccurate", kind), || {
+        ctx.expect(eps <= 16.0, &format!("C18:tie-hypothesis:{}-normal-vector-inaccurate", kind), || {
             format!("normals {:?} {:?} deviate by {:.3} (of 1024) from the exact ones", l, r, eps)
         });
     }
@@ -856,7 +857,7 @@ fn execute_trig(op: &str, a: i32, b: i32, ctx: &mut Ctx) -> String {
                     let (l, r) = (ps.1, ps.2);
                     let eps = (l[0] as f64 - nl.0).abs().max((l[1] as f64 - nl.1).abs()).max((r[0] as f64 - nr.0).abs()).max((r[1] as f64 - nr.1).abs());
                     note_max(ctx, "trig:normal-eps-max-milli", (eps * 1000.0).ceil() as u64);
-                    ctx.expect(eps <= 16.0, "C18:trig-normal-vector-inaccurate", || {
+                    ctx.expect(eps <= 16.0, "C18:tie-hypothesis:trig-normal-vector-inaccurate", || {
                         format!("normals {:?} {:?} deviate by {:.3} (of 1024) from the exact ones", l, r, eps)
                     });
                 }
